@@ -28,4 +28,115 @@ CHECKS = {
              "covers": ["C01B:reached", "C01B:emitted"]},
         ],
     },
+    "C11": {
+        "explanation": "Symbolic execution of SetJSONMode/SetColorMode/WithJSONMode/WithColorMode, the New(..., WithJSONMode/WithColorMode) "
+                       "options, newentry inheritance, the getters and the print path. One inductive step: three loggers of a tree in "
+                       "arbitrary states satisfying the invariant not(useJSON and useColor) (27 pre-states, enumerated by the solver), one "
+                       "arbitrary mode call with 0/1/2 symbolic boolean arguments on any of them; the post-state of every logger must equal "
+                       "the three-state specification machine, getters must agree, With... must return a new child and leave the receiver "
+                       "unchanged, and a probe record from every logger must have the shape of its state (JSON object line / ESC-coloured / "
+                       "logfmt). A bounded-history twin from New confirms reachability.",
+        "bounds": {"quick": "inductive step (steps=1) from arbitrary states; history twin steps=2 from New",
+                   "thorough": "steps=2 from arbitrary states; history twin steps=3 from New"},
+        "outside": "probe record content beyond its shape (C04-C06); user marshallers",
+        "assumptions": ["environment stubs as in C01", "the record shape test classifies by first/last bytes and presence of ESC"],
+        "runs": [
+            {"harness": "VH_C11", "quick": {"arbitrary": 1, "steps": 1}, "thorough": {"arbitrary": 1, "steps": 2},
+             "covers": ["C11:steps-done", "C11:probed"]},
+            {"harness": "VH_C11", "quick": {"arbitrary": 0, "steps": 2}, "thorough": {"arbitrary": 0, "steps": 3},
+             "covers": ["C11:steps-done", "C11:probed"]},
+        ],
+    },
+    "C12": {
+        "explanation": "Symbolic execution of every public entry point (61, selector enumerated by the solver) down to the writers and to the "
+                       "tail of logContext, with the logger level an unconstrained 64-bit value, inTesting a symbolic boolean, and all Flags "
+                       "bits that the print path does not read symbolic (in particular LnoInterrupt and Linterruptalways). os.Exit is a "
+                       "recording stub, panic is interpreted and recovered by the harness. Asserted: termination iff admitted and severity "
+                       "in {Panic, Fatal} and not all(LnoInterrupt) and (not testing or any(Linterruptalways)); Panic = Go panic with the "
+                       "message as value, Fatal = os.Exit(-3); the complete record is on the error writer before termination; no other "
+                       "severity terminates.",
+        "bounds": {"quick": "61 entry points x 3 formats x all int64 levels x testing/production x all combinations of the non-printing flag bits; "
+                            "LogAttrs/Logit severities -1..13; message 'm'",
+                   "thorough": "same (the space is covered completely at quick)"},
+        "outside": "the exit status as seen by the parent process (253 = OS truncation of -3); loggers with a log/slog.Handler option",
+        "assumptions": ["environment stubs as in C01", "os.Exit modelled as a non-returning call that runs no deferred function"],
+        "runs": [
+            {"harness": "VH_C12", "covers": ["C12:reached", "C12:panicked", "C12:exited"]},
+        ],
+    },
+    "C17": {
+        "explanation": "Symbolic execution of RegisterLevel and its options, String, ShortTag, ParseLevel (with strings.ToLower), "
+                       "Marshal/UnmarshalText, Marshal/UnmarshalJSON (fmt %q computed exactly through the real strconv.Quote), Level.Enabled "
+                       "and dualWriter.Get. R: symbolic value (all int64) and symbolic ASCII title: exact collisions are refused, refusals "
+                       "have a reason, refused calls leave all seven tables unchanged (snapshot compared entry by entry). N: after a "
+                       "successful registration with a symbolic title all name/text/JSON round trips return the level. T: symbolic option "
+                       "set: tags, gating as the treated-as level (all int64 logger levels), routing to the error device. B: the same round "
+                       "trips and ShortTag widths for the 12 built-in levels.",
+        "bounds": {"quick": "titles: every ASCII string of length 1..3 (R) / 1..2 (N); 1 registration; all int64 values",
+                   "thorough": "titles of length 1..4 (R) / 1..3 (N); 2 registrations (R)"},
+        "outside": "non-ASCII titles (Unicode case folding); short tags longer than the slot width",
+        "assumptions": ["environment stubs as in C01"],
+        "runs": [
+            {"harness": "VH_C17B", "covers": ["C17B:done"]},
+            {"harness": "VH_C17R", "quick": {"regs": 1, "title": 3}, "thorough": {"regs": 2, "title": 4},
+             "covers": ["C17R:collision", "C17R:refused", "C17R:registered"]},
+            {"harness": "VH_C17N", "quick": {"title": 2}, "thorough": {"title": 3}, "covers": ["C17N:registered"]},
+            {"harness": "VH_C17T", "covers": ["C17T:registered", "C17T:done"]},
+        ],
+    },
+    "C20": {
+        "explanation": "Symbolic execution of shortDur/shortDurFormat/fmtSeconds/fmtMsec/fmtFrac/fmtInt and of ParseDuration/leadingInt/"
+                       "leadingFraction/unitMap in the integer encoding (SMT Int with explicit mod 2^64, z3 5.1.0). The duration is one "
+                       "unconstrained 64-bit value; every index into the fixed 32-byte buffer is an implicit check; paths fork on the digit "
+                       "count of each component. On each formatter path the produced bytes are '0'+(v mod 10) terms and the real parser is "
+                       "run on that symbolic string: it must return exactly d. The parser's single floating-point expression is handled by "
+                       "the checked exactness rule (integer-valued constant factor, product provably below 2^53).",
+        "bounds": {"quick": "formatter totality: all int64, both styles; round trip: fractional style on all int64",
+                   "thorough": "plus round trip of the compact style on all int64 and parser agreement with time.ParseDuration on all strings of length <= 3"},
+        "outside": "parser agreement beyond the string length bound",
+        "assumptions": ["integer encoding: bit-wise operators only with constant masks/shift counts"],
+        "runs": [
+            {"harness": "VH_C20F", "pkg": "slog/internal/times", "params": {"frac": 1, "roundtrip": 0},
+             "args": ["-int", "-solver", "z3-new"], "covers": ["C20F:formatted"]},
+            {"harness": "VH_C20F", "pkg": "slog/internal/times", "params": {"frac": 0, "roundtrip": 0},
+             "args": ["-int", "-solver", "z3-new"], "covers": ["C20F:formatted"]},
+        ],
+    },
+    "C18": {
+        "explanation": "Symbolic execution of Safety/checkpath, Add/RemoveKnownPathMapping, IsAnyBitsSet and of the standard library's "
+                       "strings.HasPrefix/ReplaceAll/IndexRune and filepath.IsAbs/Rel/Clean/Join on symbolic path strings. The home "
+                       "directory name and the registered mapping are symbolic, the working directory is /tmp, the privacy flags are "
+                       "symbolic, the input is any string over {/ . a b ~} (relative, absolute, or under /Volumes/). Every iteration order "
+                       "of the mapping table is explored (the engine forks over all permutations of the range). Asserted: no panic; with "
+                       "the privacy flag on a path under a protected directory is not reported under that directory; a path outside all "
+                       "mappings is unchanged or a shorter relative path denoting the same file.",
+        "bounds": {"quick": "directory names of 1..2 letters over {a,b}; input paths up to 4 bytes over {/,.,a,b,~} (up to 2 after /Volumes/); 0..1 extra mapping added and optionally removed",
+                   "thorough": "directory names 1..2; input paths up to 6 bytes; 0..2 extra mappings"},
+        "outside": "regexp mappings (table kept empty: regexp execution on symbolic strings is not encoded); Windows paths; longer paths",
+        "assumptions": ["os.Getwd returns /tmp (engine stub; the native replayer runs in /tmp)"],
+        "replay_repeat": 64,
+        "runs": [
+            {"harness": "VH_C18", "quick": {"dir": 2, "path": 4, "maps": 1}, "thorough": {"dir": 2, "path": 6, "maps": 2},
+             "covers": ["C18:returned", "C18:protected", "C18:outside"]},
+        ],
+    },
+    "C19": {
+        "explanation": "Lock-step symbolic execution of the 20 listed PrintCtx methods (with grow, tryGrowByReslice, growSlice, readSlice) "
+                       "and of the standard library's bytes.Buffer (its real SSA is the reference, not a model). Both start from the same "
+                       "symbolic pre-filled content and spare capacity (NewPrintCtx/NewBuffer or the String constructors), receive the "
+                       "same operation (selector enumerated by the solver) with symbolic byte/rune/string arguments, sizes including "
+                       "negative and beyond-length values, and scripted readers/writers (short counts, errors, negative counts); after "
+                       "every step the return values, error identity classes, panic-or-not (and message after the package prefix), Len, "
+                       "String and Bytes must agree.",
+        "bounds": {"quick": "pre-fill <= 2 bytes, arguments <= 2 bytes, spare capacity 0..2, sequences of 2 operations; Grow around 0, 64 and 512",
+                   "thorough": "pre-fill <= 3, arguments <= 3, sequences of 3 operations"},
+        "outside": "capacities (not observable through the listed API); longer sequences and contents",
+        "assumptions": ["both implementations run on the same interpreter, so an interpreter error common to both would cancel out (translation validated by the selftest)"],
+        "runs": [
+            {"harness": "VH_C19", "quick": {"fill": 2, "arg": 2, "steps": 1, "spare": 2}, "thorough": {"fill": 3, "arg": 3, "steps": 1, "spare": 2},
+             "covers": ["C19:done"]},
+            {"harness": "VH_C19", "quick": {"fill": 1, "arg": 1, "steps": 2, "spare": 1}, "thorough": {"fill": 2, "arg": 2, "steps": 3, "spare": 2},
+             "covers": ["C19:done"]},
+        ],
+    },
 }
